@@ -14,6 +14,18 @@ T = {
                 technique="runtime monitor: unique-id global field compared bit-for-bit on every rank after real LayoutHandler.transpose under simulated MPI, path kind read from the collective trace",
                 text="Every generated handler configuration runs the real transpose code on 1-12 simulated ranks; each destination block is compared bit-for-bit with the global unique-id field; all ordered pairs, with/without buffer, random walks with stale buffers. Held = on the explored configurations only.",
                 note=SIM),
+    "C02": dict(level="exploration", engine="direct+simmpi", design="3/C02",
+                technique="runtime oracle on the real Layout class (exhaustive (n,p) box, every rank coordinate) and accessor monitors on real Grid objects under simulated MPI (value identity of a unique-id field)",
+                text="Exhaustive tiling/balance/accessor agreement inside the (n,p) box for every rank coordinate, random multi-dimensional layouts, and every Grid accessor compared against coordinate arrays and the unique-id field on simulated ranks.",
+                note=SIM + "; exhaustive only inside the stated box"),
+    "C03": dict(level="exploration", engine="simmpi", design="3/C03",
+                technique="runtime monitor: unique-id field compared on every rank after every real LayoutSwapper.transpose hop (gather/scatter/transpose/redirect read from the collective trace), replicas compared across ranks, random walks",
+                text="Real LayoutSwapper code on 1-16 simulated ranks over templates taken from real use and perturbations of them; every hop compared bit-for-bit; replica agreement across ranks; known finding keyed by mechanism.",
+                note=SIM),
+    "C04": dict(level="exploration", engine="simmpi+model", design="3/C04",
+                technique="runtime monitor: lock-step comparison of real Grid objects on simulated ranks with a one-array numpy model after every operation; exhaustive operation sequences to bounded length plus random histories; refusals observed",
+                text="All operation sequences up to length 4 (quick) / 6 (thorough) over a 7-symbol alphabet on small handler and swapper configurations plus long random histories; layout name and data block compared with the model after every operation on every rank.",
+                note=SIM + "; exhaustive only up to the stated history length"),
     "C20": dict(level="exploration", engine="direct+simmpi", design="3/C20",
                 technique="runtime oracle: brute-force divisor enumeration (exhaustive box + random), sys.monitoring line budget for termination, layouts built and transposed on the chosen grid under simulated MPI",
                 text="Exhaustive comparison with brute force inside a bounded box, random sampling far beyond, termination judged in executed lines; the chosen grid is used to build and exercise the standard layouts.",
